@@ -90,7 +90,12 @@ type Lemma struct {
 	File      string
 }
 
+type GhostVar struct {
+	Pkg, Name, Type string
+}
+
 type ContractFile struct {
+	Ghosts    []*GhostVar
 	Path      string
 	Pkg       string
 	Contracts []*Contract
@@ -280,6 +285,12 @@ func ParseContractFile(path, pkg string) (*ContractFile, error) {
 				sf.Body = e
 			}
 			cf.Specs = append(cf.Specs, sf)
+		case "ghostvar":
+			ws := strings.Fields(rest)
+			if len(ws) != 2 {
+				return nil, fail(i, "ghostvar <name> <type>")
+			}
+			cf.Ghosts = append(cf.Ghosts, &GhostVar{Pkg: pkg, Name: ws[0], Type: ws[1]})
 		case "axiom":
 			m := labelRe.FindStringSubmatch(rest)
 			if m == nil {
